@@ -1,3 +1,4 @@
 From Coq Require Import Extraction ExtrOcamlBasic.
-From BV Require Import lib.ExtractBase lib.Ints model.TxRelay.
-Extraction "model.ml" extract_base rinit_at rstep serve_getdata find_entry find_peer.
+From BV Require Import lib.ExtractBase lib.Ints gen.Params_gen model.TxRelay model.PrivBcast.
+Extraction "model.ml" extract_base rinit_at rstep serve_getdata find_entry find_peer
+  pb_add pb_remove pb_pick pb_tx_for_node pick_candidates PRIVBCAST_MAX_TRANSACTIONS PRIVBCAST_MAX_SEND_ATTEMPTS.
